@@ -68,7 +68,9 @@ def run(ctx):
         members = [('content.xml', P.content_xml(body), 'text/xml'), ('styles.xml', s, 'text/xml'), ('meta.xml', P.meta_xml(), 'text/xml')]
         extra_files = {}
         for n in nums:
-            members += [('Object %d/' % n, '', C03.MIMEC if n % 2 else PC.MIMES['sheet']), ('Object %d/content.xml' % n, c(n), 'text/xml'), ('Object %d/styles.xml' % n, s, 'text/xml')]
+            members += [('Object %d/' % n, '', C03.MIMEC if n % 2 else PC.MIMES['sheet']), ('Object %d/content.xml' % n, c(n), 'text/xml')]
+            if not (i % 3 == 1 and n == nums[0]):           # every third package: an object written without a styles.xml of its own
+                members.append(('Object %d/styles.xml' % n, s, 'text/xml'))
             if ctx.rng.random() < 0.6:
                 members.append(('Object %d/Pictures/p.png' % n, b'PIC%d' % n, 'image/png')); extra_files['Object %d/Pictures/p.png' % n] = (b'PIC%d' % n, 'image/png')
             if ctx.rng.random() < 0.3:
